@@ -63,6 +63,7 @@ def buf_prop(pid, corr_profiles, twin_profiles, rule, c07=False, extra_assume=()
         suites.append(dict(unit="unit_buf_io_faults", special="iofault"))
     if pid == "C06":
         suites.append(dict(unit="unit_c06_handles", special="c06h"))
+        suites.append(dict(unit="unit_c06_sessions", special="c06s"))
     if seq:
         suites += seq
     PROPS[pid] = dict(suites=suites, rule=rule, assumptions=BUF_ASSUME + list(extra_assume))
@@ -133,6 +134,11 @@ def _c06h_tasks(tier, seed):
     return [("unit_c06_handles", (fam, seed)) for fam in BUF_FAMS]
 
 
+def _c06s_tasks(tier, seed):
+    n_units, n = (4, 60) if tier == "quick" else (16, 400)
+    return [("unit_c06_sessions", (fam, seed * 977 + i, n)) for fam in BUF_FAMS for i in range(n_units)]
+
+
 def _awkward_tasks(tier, seed):
     """valid JSON data that encoders trip over (unpaired surrogates, control characters), saved in every
     write mode: must be accepted and read back exactly"""
@@ -143,7 +149,7 @@ def _c11f_tasks(tier, seed):
     return [("unit_c11_foreign", (fam, seed)) for fam in range(6)]
 
 
-SPECIAL = {"iofault": _iofault_tasks, "c06h": _c06h_tasks, "awkward": _awkward_tasks, "c11f": _c11f_tasks}
+SPECIAL = {"iofault": _iofault_tasks, "c06h": _c06h_tasks, "c06s": _c06s_tasks, "awkward": _awkward_tasks, "c11f": _c11f_tasks}
 
 C08_SCENARIOS = ["dict_default", "dict_default_fresh", "dict_default_shorter", "dict_write_concern_nothreads",
                  "attrdict_default", "dict_plain_nothreads", "dict_threads_enabled_after_construction",
